@@ -500,7 +500,8 @@ contract(
     "cnvlib/descriptives.py::median_absolute_deviation",
     params=dict(a=VecT(Real), scale_to_sd=Bool),
     returns=Real,
-    requires=["len(a) >= 1"],
+    requires=["len(a) >= 2"],
+    ghost=dict(decorated="on_array(0) is the identity on a NaN-free array of at least two values (it returns 0 for one value)"),
     ensures=[
         ("non_negative", "result >= 0"),
         ("zero_on_constant_data", "implies(forall(0, len(a), lambda k: a[k] == a[0]), result == 0)"),
@@ -516,7 +517,8 @@ contract(
     "cnvlib/descriptives.py::mean_squared_error",
     params=dict(a=VecT(Real), initial=Lit(None)),
     returns=Real,
-    requires=["len(a) >= 1"],
+    requires=["len(a) >= 2"],
+    ghost=dict(decorated="on_array(0) is the identity on a NaN-free array of at least two values (it returns 0 for one value)"),
     ensures=[
         # from zero by default (the deviations are handed in): the mean of the squares, not their variance
         ("mean_of_squares", "result == sumof(Vec(len(a), lambda k: a[k] ** 2)) / len(a)"),
